@@ -258,6 +258,10 @@ pub enum Key {
 /// Byte-driven reference decoder written from the statement of C04.
 #[derive(Clone, Debug, Default)]
 pub struct RefDecoder {
+    /// a byte arrived whose treatment the statement of C04 leaves open (DEL, ill-formed UTF-8, a control byte inside a
+    /// multi-byte character, a byte outside 0x20..=0x7E inside a CSI sequence): from here on this decoder is one of
+    /// several acceptable ones
+    pub open_point: bool,
     in_csi: bool,
     esc_pending: bool,
     /// last byte was a terminator that produced an Enter and may still pair up
@@ -280,6 +284,9 @@ impl RefDecoder {
             | (self.utf.len() as u64) << 4
     }
     pub fn accept(&mut self, b: u8) -> Option<Key> {
+        if b == 0x7f || (self.in_csi && !(0x20..=0x7e).contains(&b)) || (!self.utf.is_empty() && !(0x80..=0xbf).contains(&b)) || (self.utf.is_empty() && !self.in_csi && (0x80..=0xc1).contains(&b)) || b >= 0xf5 {
+            self.open_point = true;
+        }
         if self.in_csi {
             self.pair_open = None;
             if (0x40..=0x7e).contains(&b) {
@@ -336,6 +343,7 @@ impl RefDecoder {
                             if e.error_len().is_none() {
                                 return None; // incomplete, wait
                             }
+                            self.open_point = true;
                             if self.utf.len() == 1 {
                                 self.utf.clear();
                                 return None;
